@@ -372,6 +372,9 @@ def main(tier, replay=None, rep=None, prop=PROP, cases=None):
         # the term arithmetic the tactics are built from (multiply, +, remove / isolate / substitute, sign queries), spec/TermAlgebra.tla
         n_ta, _ = drift_tier(PROP, "term-arithmetic", lambda: __import__("termdrv").conformance(rep, rd, PROP))
         n_disp += n_ta
+        # tactic 3's change of variables (what it hands to tactic 1), spec/Tactic3.tla
+        n_t3, _ = drift_tier(PROP, "tactic-3", lambda: __import__("t3drv").conformance(rep, rd, PROP, tier))
+        n_disp += n_t3
     shutil.rmtree(rd, ignore_errors=True)
     if collect:
         return {"evaluations": n_ev, "nontrivial": nontrivial, "traces": len(traces), "verdict_counts": counts}
